@@ -497,6 +497,12 @@ package fit
 
 //@ func (d *decoder) decodeHeader() (err error)
 //@   slow crc 60
+//@@ C10: the header that every entry point reports is this function of the first Size bytes of the stream
+//@   ensures [hdr-bytes] err == nil ==> d.h.Size == instream(d.r, old(pos(d.r))) && d.h.ProtocolVersion == instream(d.r, old(pos(d.r))+1) &&
+//@  |   d.h.ProfileVersion == uint16(instream(d.r, old(pos(d.r))+2))|uint16(instream(d.r, old(pos(d.r))+3))<<8 &&
+//@  |   d.h.DataSize == uint32(instream(d.r, old(pos(d.r))+4))|uint32(instream(d.r, old(pos(d.r))+5))<<8|uint32(instream(d.r, old(pos(d.r))+6))<<16|uint32(instream(d.r, old(pos(d.r))+7))<<24 &&
+//@  |   d.h.DataType[0] == instream(d.r, old(pos(d.r))+8) && d.h.DataType[1] == instream(d.r, old(pos(d.r))+9) && d.h.DataType[2] == instream(d.r, old(pos(d.r))+10) && d.h.DataType[3] == instream(d.r, old(pos(d.r))+11)
+//@   ensures [hdr-crc-bytes] err == nil && d.h.Size == 14 ==> d.h.CRC == uint16(instream(d.r, old(pos(d.r))+12))|uint16(instream(d.r, old(pos(d.r))+13))<<8
 //@   requires [sum0] {C04} dyncrc16.GhostSum(d.crc) == 0
 //@   ensures [hdr-ok] {C04} err == nil ==> hdrOK(d.h)
 //@   gassign {C04} crcstart(d) := old(pos(d.r))
@@ -886,7 +892,7 @@ package fit
 //@   ensures [crc] {C04} inv_crc(d)
 //@   requires [header] {C13} d.bytes.n >= 1 && recordHeader == lastByte(d) && compressed == (recordHeader&0x80 == 0x80)
 //@   requires [latest] {C13} defs_latest(d)
-//@   gassign {C03} nvalid(d) := nvalid(d)+1 when err == nil && rvvalid(r)
+//@   gassign {C03 C11} nvalid(d) := nvalid(d)+1 when err == nil && rvvalid(r)
 //@@ C16: a data record of a message number absent from the profile adds exactly one to that number's count
 //@@ (when the option is on), every other count is untouched; records of known messages never count here
 //@   ensures [unk-msg] {C16} old(d.defmsgs[slotOf(recordHeader, compressed)]) != nil && d.opts.unknownMessages && !knownMsgNums[old(d.defmsgs[slotOf(recordHeader, compressed)]).globalMsgNum] ==>
@@ -942,7 +948,7 @@ package fit
 //@ func (f *File) add(msg reflect.Value)
 //@   props C01 C03
 //@   ensures [wf] {C03 C07} old(file_ready(f) && wf_file(f)) ==> wf_file(f)
-//@   gassign {C03} nadded(f) := nadded(f)+1
+//@   gassign {C03 C11} nadded(f) := nadded(f)+1
 //@   nosubtype
 //@   requires [valid] rvvalid(msg)
 //@   requires [router] typeis[FileIdMsg](ifaceOf(msg)) || file_ready(f)
@@ -1118,8 +1124,8 @@ package fit
 //@ pred file_inv(d *decoder) := d.file != nil
 
 //@ func (d *decoder) parseFileIdMsg() (err error)
-//@   ensures [added] {C03} err == nil ==> nadded(d.file)-old(nadded(d.file)) == nvalid(d)-old(nvalid(d))
-//@   assigns {C03} nadded(d.file), nvalid(d)
+//@   ensures [added] {C03 C11} err == nil ==> nadded(d.file)-old(nadded(d.file)) == nvalid(d)-old(nvalid(d))
+//@   assigns {C03 C11} nadded(d.file), nvalid(d)
 //@   requires [content] {C02 C04 C12 C13} inv_content(d)
 //@   requires [crc] {C04} inv_crc(d)
 //@   ensures [content] {C02 C04 C12 C13} inv_content(d)
@@ -1142,9 +1148,9 @@ package fit
 
 //@ func (d *decoder) decodeFileData() (err error)
 //@   slow variant 90
-//@   ensures [added] {C03} nadded(d.file)-old(nadded(d.file)) == nvalid(d)-old(nvalid(d))
-//@   assigns {C03} nadded(d.file), nvalid(d)
-//@   loop 0 invariant [added] {C03} nadded(d.file)-old(nadded(d.file)) == nvalid(d)-old(nvalid(d))
+//@   ensures [added] {C03 C11} nadded(d.file)-old(nadded(d.file)) == nvalid(d)-old(nvalid(d))
+//@   assigns {C03 C11} nadded(d.file), nvalid(d)
+//@   loop 0 invariant [added] {C03 C11} nadded(d.file)-old(nadded(d.file)) == nvalid(d)-old(nvalid(d))
 //@   loop 0 dispatches {C03} parseDataMessage parseDefinitionMessage
 //@   requires [content] {C02 C04 C12 C13} inv_content(d)
 //@   requires [crc] {C04} inv_crc(d)
@@ -1241,6 +1247,7 @@ package fit
 //@@ C04: a file is accepted only if the CRC residue of all its bytes (header, data, stored CRC) is zero
 //@   ensures [residue] {C04} err == nil && !headerOnly && !fileIDOnly && !crcOnly ==> sfold(r, 0, old(pos(r)), pos(r)) == 0
 //@   assigns {C04} crcstart(d)
+//@   assigns {C03 C11} nvalid(d)
 
 //@ func CheckIntegrity(r io.Reader, headerOnly bool) (err error)
 //@   props C01 C10 C11
